@@ -11,7 +11,7 @@ cd "$wt" || exit 2
 git checkout -q -- . ; git clean -fdq -e OUT
 git apply "$out/patch.diff" || { echo "$wt $m: PATCH DOES NOT APPLY"; exit 1; }
 suite=$(cargo test --workspace --offline 2>&1 | grep -E "^test result|FAILED|failed|^error" )
-nfail=$(echo "$suite" | grep -cE "FAILED|failed;|^error|[1-9][0-9]* failed")
+nfail=$(echo "$suite" | grep -cE "FAILED|^error|[^0-9][1-9][0-9]* failed;")
 nok=$(echo "$suite" | grep -c "^test result: ok")
 git checkout -q -- . ; git clean -fdq -e OUT -e target
 # demo with patch
